@@ -12,6 +12,7 @@ namespace OpsScan
 def pathName : P → String
   | .renamifyDir => ".renamify"
   | .lock => ".renamify/renamify.lock"
+  | .lockTmp => ".renamify/renamify.lock.PID.tmp"
   | .planFile => ".renamify/plan.json"
   | .probeDir => ".tmpRAND"
   | .probeFile => ".tmpRAND/test_case_a"
@@ -26,6 +27,7 @@ def opName : FsOp → String
   | .unlink p => s!"unlink:{pathName p}"
   | .rmdir p => s!"rmdir:{pathName p}"
   | .rename a b => s!"rename:{pathName a}:{pathName b}"
+  | .link a b => s!"link:{pathName a}:{pathName b}"
 
 def cmdOf : String → Option Cmd
   | "plan" => some .plan
